@@ -833,6 +833,17 @@ def c05_structured():
         ("S6-difference-of-quotients", ["-", q(a, x), q(one, x)]),
         ("S7-float-literal-quotients", ["+", q(N(1.0), x), q(a, x)]),
         ("S8-two-over-x-plus-b-over-x", ["+", q(["num", 2], x), q(b, x)]),
+        ("K1-two-pi", ["*", ["num", 2], V("pi")]),
+        ("K2-pi-half", ["/", V("pi"), ["num", 2]]),
+        ("K3-pi", V("pi")),
+        ("K4-two-pi-plus-x-minus-x", ["-", ["+", ["*", ["num", 2], V("pi")], x], x]),
+        ("K5-float-two-pi", ["*", N(2.0), V("pi")]),
+        ("L1-x-times-exp-of-integer", ["*", x, f("exp", ["num", -2])]),
+        ("L2-x-over-exp-of-integer", q(x, f("exp", ["num", 2]))),
+        ("L3-tanh-of-integer-plus-x", ["+", f("tanh", ["num", 2]), x]),
+        ("L4-sin-cos-of-integers", ["+", ["*", f("sin", ["num", 1]), x], ["*", f("cos", ["num", 3]), a]]),
+        ("L5-exp-of-float-literal", ["*", x, f("exp", N(-2.0))]),
+        ("L6-log-of-integer", ["+", f("log", ["num", 2]), x]),
         ("T1-tanh-plus-tan", ["+", f("tanh", x), f("tan", x)]),
         ("T2-sinh-times-sin", ["*", f("sinh", x), f("sin", x)]),
         ("T3-cos-over-cosh", q(f("cos", ["*", a, x]), f("cosh", x))),
